@@ -109,7 +109,7 @@ def pi_C18 (r : Result) : String := " | ".intercalate (r.roots.map Block.allStac
 /-- per function: (source statements, stack statements) -/
 def denotePairs (p : Program) (r : Result) : List (List DStmt × List DStmt) :=
   let g := p.rglobals
-  (p.fnDecls.zip r.roots).map fun (f, b) => (specStmts g f, abstractStack b.context)
+  (p.fnDecls.zip r.roots).map fun (f, b) => (specStmts true g f, abstractStack b.context)
 
 def cmpRendered (tag : String) (f : DStmt → String) (pairs : List (List DStmt × List DStmt)) : List String :=
   pairs.zipIdx.flatMap fun ((spec, abs), i) =>
@@ -131,7 +131,11 @@ def P_C06 (p : Program) (r : Result) : List String :=
 emitted operations is compared with the reference precedence tree -/
 def P_C07 (p : Program) (r : Result) : List String :=
   if !acceptedWF p r then [] else
-  cmpRendered "c07" (DStmt.render DTree.shape) (denotePairs p r)
+  cmpRendered "c07" (DStmt.render DTree.shape) (denotePairs p r) ++
+  -- the fold-built trees (the ones theorem T2 speaks about) are the reference trees on this program
+  (p.fnDecls.zipIdx.flatMap fun (f, i) =>
+    if (specStmts false p.rglobals f).map (DStmt.render DTree.str) == (specStmts true p.rglobals f).map (DStmt.render DTree.str)
+    then [] else [s!"c07:fn{i}:fold-tree-differs-from-reference-tree"])
 
 def DStmt.hasExt (d : DStmt) : Bool := match d.tree? with
   | some t => !t.exts.isEmpty
